@@ -19,14 +19,18 @@ META = {
 }
 
 
-def msg_len_strategy(bs, tier, aligned=False):
-    pts = [0, 1, bs - 1, bs, bs + 1, 2 * bs - 1, 2 * bs, 2 * bs + 1, 7 * bs, 8 * bs - 1, 8 * bs, 8 * bs + 1, 9 * bs, 16 * bs, 16 * bs + 1]
-    big = [1024, 4096, 4097] if tier == "quick" else [1024, 4096, 4097, 16384, 65536 + 3]
-    s = st.one_of(st.integers(0, 4 * bs + 1), st.sampled_from(pts), st.sampled_from(pts), st.integers(0, 40 * bs),
-                  st.sampled_from(big))
+@st.composite
+def msg_len_strategy(draw, bs, tier, aligned=False):
+    pts = [0, 1, bs - 1, bs, bs + 1, 2 * bs - 1, 2 * bs, 2 * bs + 1, 7 * bs, 8 * bs - 1, 8 * bs, 8 * bs + 1, 9 * bs, 16 * bs, 16 * bs + 1, 255 * bs, 256 * bs + 1]
+    if tier == "huge":
+        # the bigmsg check: more than 2^16 blocks / 2^16 bytes in one message (16-bit length or block-count slips)
+        n = draw(st.sampled_from([65536 * bs + bs + 1, 65536 * bs + bs + 1, 65536 + 3]))
+    else:
+        big = [1024, 4096, 4097] if tier == "quick" else [1024, 4096, 4097, 16384, 65536 + 3]
+        n = draw(st.one_of(st.integers(0, 4 * bs + 1), st.sampled_from(pts), st.sampled_from(pts), st.integers(0, 40 * bs), st.sampled_from(big)))
     if aligned:
-        return s.map(lambda n: n - n % bs)
-    return s
+        n -= n % bs
+    return n
 
 
 # ------------------------------------------------------------------ block modes
@@ -36,6 +40,8 @@ def strat_block(draw, tier):
     bs = oracles.BLOCK[spec["cipher"]]
     aligned = spec["mode"] in ("ECB", "CBC")
     n = draw(msg_len_strategy(bs, tier, aligned))
+    if tier == "huge" and spec["mode"] == "CFB" and spec["segment_size"] < 8 * bs:
+        n = min(n, 65536 + 3)       # the reference makes one block call per segment
     if spec["mode"] == "CTR":
         # stay below the counter limit (the limit itself is C11's subject)
         cap = (1 << (8 * spec["ctr"]["clen"])) * bs
@@ -547,6 +553,21 @@ def run_ccm_aad(case, rec):
     rec.sample(case)
 
 
+# ------------------------------------------------------------------ messages of more than 2^16 blocks
+@st.composite
+def strat_bigmsg(draw, tier):
+    kind = draw(st.sampled_from(["block", "block", "aead", "aead", "stream"]))
+    c = draw({"block": strat_block, "aead": strat_aead, "stream": strat_stream}[kind]("huge"))
+    c["which"] = kind
+    c.pop("seek", None)
+    return c
+
+
+def run_bigmsg(case, rec):
+    {"block": run_block, "aead": run_aead, "stream": run_stream}[case["which"]](case, rec)
+    rec.event("bigmsg:%s:%s" % (case["spec"]["cipher"], case["spec"].get("mode")))
+
+
 CHECKS = [
     Check("ccm_aad", run=run_ccm_aad, cases=cases_ccm_aad, shards=(8, 14),
           rule="CCM with associated data lengths around the 0xFF00 and 2^16 header-encoding thresholds"),
@@ -554,6 +575,8 @@ CHECKS = [
           rule="block cipher x classic mode: ciphertext == reference, decrypt inverts, exposed iv/nonce decrypts in the reference"),
     Check("aead", run=run_aead, strategy=strat_aead, examples=(20000, 300000), shards=(16, 16),
           rule="AEAD ciphertext and tag == reference (+libcrypto second opinion), genuine message opens"),
+    Check("bigmsg", run=run_bigmsg, strategy=strat_bigmsg, examples=(64, 800), shards=(16, 16),
+          rule="messages of 65536 blocks + 1 block + 1 byte (and 65536+3 bytes) through randomly drawn cipher/mode/parameter combinations"),
     Check("siv_empty", run=run_siv_empty, strategy=strat_siv_empty, examples=(60, 300), shards=(1, 1),
           rule="SIV over the empty vector"),
     Check("stream", run=run_stream, strategy=strat_stream, examples=(8000, 100000), shards=(8, 16),
